@@ -22,6 +22,8 @@ use s2n_quic_core::{
 
 /// what insert_stream configured the stream with: (send window, receive window, desired window)
 static mut RECORDED: Option<(u64, u64, u32)> = None;
+/// the connection-level send credit the stream was handed
+static mut CONN_RECORDED: Option<u64> = None;
 /// how many streams were created, and the id of the last one
 static mut CREATED: (u64, Option<StreamId>) = (0, None);
 
@@ -49,6 +51,7 @@ impl StreamTrait for RecStream {
                 config.desired_flow_control_window,
             ));
             CREATED = (CREATED.0 + 1, Some(config.stream_id));
+            CONN_RECORDED = Some(config.outgoing_connection_flow_controller.available_window().as_u64());
         }
         let id = config.stream_id;
         core::mem::forget(config);
@@ -105,28 +108,29 @@ fn verif_manager_insert_stream_windows() {
     // what WE declared in our transport parameters, and what the PEER declared in theirs
     let ours = InitialStreamLimits { max_data_bidi_local: vi32(), max_data_bidi_remote: vi32(), max_data_uni: vi32() };
     let theirs = InitialStreamLimits { max_data_bidi_local: vi32(), max_data_bidi_remote: vi32(), max_data_uni: vi32() };
-    let initial_local_limits = InitialFlowControlLimits { stream_limits: ours, ..Default::default() };
-    let initial_peer_limits = InitialFlowControlLimits { stream_limits: theirs, ..Default::default() };
+    // connection-level limits: ours (what the peer may send) and theirs (what we may send)
+    let our_max_data: u32 = kani::any();
+    let their_max_data: u32 = kani::any();
+    let initial_local_limits = InitialFlowControlLimits {
+        stream_limits: ours,
+        max_data: VarInt::from_u32(our_max_data),
+        ..Default::default()
+    };
+    let initial_peer_limits = InitialFlowControlLimits {
+        stream_limits: theirs,
+        max_data: VarInt::from_u32(their_max_data),
+        ..Default::default()
+    };
     let limits = connection::Limits::default();
-    let mut state: StreamManagerState<RecStream> = StreamManagerState {
-        incoming_connection_flow_controller: IncomingConnectionFlowController::new(VarInt::from_u32(1000), 1000),
-        outgoing_connection_flow_controller: OutgoingConnectionFlowController::new(VarInt::from_u32(1000)),
-        stream_controller: stream::Controller::new(
-            local,
-            initial_peer_limits,
-            initial_local_limits,
-            stream::Limits::default(),
-            Duration::from_millis(10),
-        ),
-        streams: StreamContainer::new(&limits),
-        next_stream_ids: StreamIdSet::initial(),
-        local_endpoint_type: local,
+    // the REAL constructor of the stream manager
+    let mut manager: AbstractStreamManager<RecStream> = <AbstractStreamManager<RecStream> as stream::Manager>::new(
+        &limits,
+        local,
         initial_local_limits,
         initial_peer_limits,
-        close_reason: None,
-        accept_state: AcceptState::new(local),
-        stream_limits: stream::Limits::default(),
-    };
+        Duration::from_millis(10),
+    );
+    let state = &mut manager.inner;
     let initiator = if kani::any() { endpoint::Type::Client } else { endpoint::Type::Server };
     let ty = if kani::any() { StreamType::Bidirectional } else { StreamType::Unidirectional };
     let n: u64 = kani::any();
@@ -157,10 +161,18 @@ fn verif_manager_insert_stream_windows() {
     }
     // the window we keep open is the one we declared
     assert!(desired as u64 == recv);
+    // connection level: we may send what THEY declared, they may send what WE declared
+    let conn_send = unsafe { CONN_RECORDED }.unwrap();
+    assert!(conn_send == their_max_data as u64);
+    // receive side, observed through the API: exactly our_max_data bytes are admitted
+    let mut rx = state.incoming_connection_flow_controller.clone();
+    assert!(rx.acquire_window(VarInt::from_u32(our_max_data)).is_ok());
+    assert!(rx.acquire_window(VarInt::from_u8(1)).is_err());
+    kani::cover!(our_max_data != their_max_data, "asymmetric connection limits");
     kani::cover!(ty == StreamType::Bidirectional && opened_by_us && theirs.max_data_bidi_local != theirs.max_data_bidi_remote, "locally opened bidi stream, asymmetric peer limits");
     kani::cover!(ty == StreamType::Bidirectional && !opened_by_us && theirs.max_data_bidi_local != theirs.max_data_bidi_remote, "peer-opened bidi stream, asymmetric peer limits");
     kani::cover!(ty == StreamType::Unidirectional && opened_by_us, "locally opened uni stream");
-    core::mem::forget(state);
+    core::mem::forget(manager);
 }
 
 // C04 / C12: which streams a frame may refer to. One incoming frame naming an arbitrary stream id
@@ -185,25 +197,14 @@ fn verif_manager_open_stream_if_necessary() {
     };
     let initial_peer_limits = InitialFlowControlLimits::default();
     let limits = connection::Limits::default();
-    let mut state: StreamManagerState<RecStream> = StreamManagerState {
-        incoming_connection_flow_controller: IncomingConnectionFlowController::new(VarInt::from_u32(1000), 1000),
-        outgoing_connection_flow_controller: OutgoingConnectionFlowController::new(VarInt::from_u32(1000)),
-        stream_controller: stream::Controller::new(
-            local,
-            initial_peer_limits,
-            initial_local_limits,
-            stream::Limits::default(),
-            Duration::from_millis(10),
-        ),
-        streams: StreamContainer::new(&limits),
-        next_stream_ids: StreamIdSet::initial(),
-        local_endpoint_type: local,
+    let mut manager: AbstractStreamManager<RecStream> = <AbstractStreamManager<RecStream> as stream::Manager>::new(
+        &limits,
+        local,
         initial_local_limits,
         initial_peer_limits,
-        close_reason: None,
-        accept_state: AcceptState::new(local),
-        stream_limits: stream::Limits::default(),
-    };
+        Duration::from_millis(10),
+    );
+    let state = &mut manager.inner;
     let initiator = if kani::any() { endpoint::Type::Client } else { endpoint::Type::Server };
     let ty = if kani::any() { StreamType::Bidirectional } else { StreamType::Unidirectional };
     let idx: u64 = kani::any();
@@ -247,7 +248,7 @@ fn verif_manager_open_stream_if_necessary() {
             kani::cover!(true, "frame for a stream we opened");
         }
     }
-    core::mem::forget(state);
+    core::mem::forget(manager);
 }
 
 // ---- generated by tools/fixup.py: native replay entry ----
